@@ -33,6 +33,8 @@ func init() {
 			{ID: "C02-R10", Title: "frame locals are written only by the frame and the dispatch function", Floor: 2, Run: localsWrittenOnlyByOwners},
 			{ID: "C02-R11", Title: "derived constructors copy every field", Floor: 1, Run: derivedConstructorsCopyEveryField},
 			{ID: "C02-R12", Title: "cells are made by the VM only", Floor: 1, Run: cellsAreMadeByTheVM},
+			{ID: "C02-R13", Title: "cells point into the activation's captured locals", Floor: 1, Run: cellsPointIntoFrameStorage},
+			{ID: "C02-R14", Title: "block scopes are opened on every path that compiles the block (shared with C01)", Floor: 3, Run: blockScopesOpenedUnconditionally},
 		},
 	})
 }
